@@ -12,7 +12,7 @@ def jobs(tier):
     js = [('memory', 'VerifRomNone', {})]
     q = tier == 'quick'
     for t in (MBC1[:1] if q else MBC1):
-        for rom in ([0, 1, 4] if q else range(0, 7)):
+        for rom in ([0, 1, 4, 5] if q else range(0, 7)):
             js.append(('memory', 'VerifRomMBC1', {'type': t, 'rom': rom, 'ram': 0 if q else 3}))
     for t in (MBC2[:1] if q else MBC2):
         for rom in ([0, 3] if q else range(0, 4)):
@@ -21,7 +21,7 @@ def jobs(tier):
         for rom in ([0, 2, 4] if q else range(0, 7)):
             js.append(('memory', 'VerifRomMBC3', {'type': t, 'rom': rom, 'ram': 0}))
     for t in (MBC5[:1] if q else MBC5):
-        for rom in ([0, 3, 5] if q else range(0, 9)):
+        for rom in ([0, 3, 5, 8] if q else range(0, 9)):
             js.append(('memory', 'VerifRomMBC5', {'type': t, 'rom': rom, 'ram': 0}))
     return js
 
